@@ -23,10 +23,12 @@ META = {
               'and the segmentation of every socket read are symbolic; one '
               '55-packet (thorough: 120-packet) history at a concrete version crosses the '
               '50-read batch limit; coordinates symbolic at protocol 47 (echo), concrete elsewhere; compression off / on '
-              '(threshold 256)',
+              '(threshold 256, and ANY threshold in [0, 2^31) for the '
+              'histories KPK at 757 and 47 and KUD at 340, with the '
+              'server free to compress or not at size == threshold; one '
+              'history with a compressed unknown-id frame of 2^21+1 bytes)',
     'outside': 'thread interleavings; histories of several hundred packets '
-               'at every version; compression thresholds below the frame '
-               'sizes used',
+               'at every version',
     'assumptions': [
         'E-socket/E-select/E-thread/E-stream: in-memory duplex to a scripted '
         'server, select ready iff data pending, thread bodies run one after '
@@ -97,8 +99,7 @@ class PlayServer(simnet.BaseServer):
             self.push(world.packet_frame(succ, self.cx, threshold=thr))
             for pkt in self.history:
                 if isinstance(pkt, list):       # raw frame body
-                    fr = wire.frame(([0] if thr is not None else []) + pkt)
-                    self.push(fr)
+                    self.push(world.raw_frame(pkt, thr))
                 else:
                     self.push(world.packet_frame(pkt, self.cx,
                                                  threshold=thr))
@@ -187,6 +188,10 @@ def play(ctx, pattern, version='sym', compressed=False, sentinel=False,
         elif ch == 'U':
             content = ctx.bytes('unk%d' % i, 3)
             history.append([0x7F] + list(bytes_items(content)))
+        elif ch == 'B':
+            # an unknown-id frame just beyond the 3-byte VarInt range of the
+            # data-length field (2^21 + 1 bytes of concrete zeros)
+            history.append([0x7F] + [0] * (1 << 21))
         elif ch == 'H':
             history.append(cb.TimeUpdatePacket(
                 world_age=ctx.int('age%d' % i, -(1 << 63), (1 << 63) - 1),
@@ -199,6 +204,13 @@ def play(ctx, pattern, version='sym', compressed=False, sentinel=False,
     zl = None
     import contextlib
     patches = contextlib.ExitStack()
+    if compressed == 'big':
+        import minecraft.networking.connection as cn
+        import minecraft.networking.packets.packet as pk
+        threshold = 256
+        zl = netenv.ZlibStub(choose_length=True)
+        patches.enter_context(netenv.patched(pk, compress=zl.compress))
+        patches.enter_context(netenv.patched(cn, zlib=zl))
     if compressed == 'sym':
         # ANY threshold: frames of the conversation end up below, at and
         # above it (the server's choice at equality is an input, see
@@ -251,7 +263,7 @@ def play(ctx, pattern, version='sym', compressed=False, sentinel=False,
     seen_play = seen[2:] if compressed else seen[1:]
     conds.append(z3.BoolVal(len(seen_play) == len(pattern)))
     for ch, p in zip(pattern, seen_play):
-        if ch == 'U':
+        if ch in 'UB':
             conds.append(z3.BoolVal(type(p) is Packet and p.id == 0x7F))
         else:
             want = {'K': cb.KeepAlivePacket,
@@ -309,6 +321,11 @@ def instances(tier, seed):
                              'version': v, 'lite': True}, W=96,
                             budget_s=1800, max_decisions=200000,
                             note='symbolic compression threshold'))
+    out.append(Instance('play:zbig:KBK:757', 'play',
+                        {'pattern': 'KBK', 'compressed': 'big',
+                         'version': 757, 'lite': True}, W=96, budget_s=1800,
+                        max_decisions=200000, conc_timeout_s=120,
+                        note='an unknown frame of 2^21+1 bytes, compressed'))
     out.append(Instance('play:PK:47:coords', 'play',
                         {'pattern': 'PK', 'version': 47,
                          'sym_coords': True}, W=96, budget_s=1800,
